@@ -453,7 +453,11 @@ func (i *IfUnless) Evaluation(
 	t *base.T,
 ) (err error) {
 
-	// clear
+	// every conditional narrows on its own state: the evaluator registered
+	// for "if"/"unless" is shared, and a conditional nested in a branch must
+	// not wipe the state of the enclosing one
+	i = &IfUnless{conditionType: i.conditionType}
+
 	i.originalTs = make(map[string][]base.T)
 	i.narrowTs = make(map[string][]base.T)
 	i.ifNarrowTs = make(map[string][]base.T)
